@@ -275,16 +275,16 @@ PROPS["C14"] = {
              "running concurrently; oracle: every request gets a response with a valid status, no handler panics, the process survives "
              "(fatal runtime errors are attributed through the case journal), all requests complete (60 s / 40 s stall budgets for "
              "millisecond work), /robots.txt answers afterwards. Non-trivial = >= 2 pairs and at least one concurrent reader or junk sender. "
-             "c14_wire (thorough only): the real broker binary on a loopback port, raw HTTP/1.1 over TCP: sequences of 1-8 requests on one "
+             "c14_wire (a small run in the quick tier, the full one in the thorough tier): the real broker binary (serving a non-empty metrics log) on a loopback port, raw HTTP/1.1 over TCP: sequences of 1-8 requests on one "
              "connection (keep-alive or pipelined), Expect: 100-continue, chunked bodies, bodies of 99 999 / 100 000 / 100 001 / 300 000 bytes, "
              "legacy offers with any NAT header, mutated polls; every request must get a response that http.ReadResponse parses completely, "
              "the process must keep accepting connections and the canaries must behave."),
-    "assumptions": ["quick tier: requests are delivered to the handlers through httptest (no TCP); connection-level behaviour (keep-alive, pipelining, dropped connections) is covered by the thorough wire tier against the broker binary"],
+    "assumptions": ["the in-package units deliver requests to the handlers through httptest (no TCP); connection-level behaviour (keep-alive, pipelining, dropped connections, what follows a response on the wire) is covered by the wire unit against the broker binary"],
     "units": [
         U("c14_http", "inpkg", "broker", "^TestVerifC14HTTP$", (800, 6000), timeout=(300, 3000), wedge_is_violation=True),
         U("c14_legacy", "inpkg", "broker", "^TestVerifC14Legacy$", (800, 6000), timeout=(300, 3000), wedge_is_violation=True),
         U("c14_concurrent", "inpkg", "broker", "^TestVerifC14Concurrent$", (40, 400), shards=(2, 4), timeout=(400, 3000)),
-        U("c14_wire", "ext", "c14wire", "^TestVerifC14Wire$", (0, 400), shards=(0, 6), timeout=(400, 1200), tiers=["thorough"]),
+        U("c14_wire", "ext", "c14wire", "^TestVerifC14Wire$", (60, 400), shards=(2, 6), timeout=(400, 1200)),
     ],
 }
 META["C14"] = {
